@@ -57,7 +57,13 @@ def build(t, sv, fail, out_kb, delay_ms):
     if t[0] == 'T':
         return ThreadServlet(PW, num_threads=t[1], worker_name=f'sv{sv}', **kw)
     if t[0] == 'P':
-        return ProcessServlet(PW, cpus=t[1], worker_name=f'sv{sv}', **kw)
+        cpus = t[1]
+        if fail is not None and list(fail)[:2] == ['cpu', sv]:
+            # the worker fails to initialise because it is pinned to a CPU the machine does not have
+            # (the pinning is part of the library's own Worker.__init__, not of the subclass)
+            cpus = [0] * t[1]
+            cpus[fail[2]] = 100000
+        return ProcessServlet(PW, cpus=cpus, worker_name=f'sv{sv}', **kw)
     a = build(t[1], sv + 1, fail, out_kb, delay_ms)
     b = build(t[2], sv + 1 + tsize(t[1]), fail, out_kb, delay_ms)
     if t[0] == 'S':
